@@ -195,7 +195,8 @@ Definition step (s : state) : sres :=
         | Some (args, obj :: st') =>
             match obj with
             | VNil => Next (mkSt pc' (VNil :: st') (scs s) (rs s))
-            | _ => match fetch_fn fe obj name with
+            | _ => if fetch_fn_zero obj name then Next (mkSt pc' (VNil :: st') (scs s) (rs s)) else
+                   match fetch_fn fe obj name with
                    | Ok id => of_result pc' st' (scs s) (do_call fe l false id obj args (rs s))
                    | Fail e => crash e end
             end
